@@ -194,6 +194,17 @@ CHECKS.update({
             "DESIGN.md 4/C11"),
 })
 
+CHECKS.update({
+    "C16": ("exploration",
+            "exhaustive enumeration of budgets over rule-file feature subsets x rule mode x transform x supplemental; three-way differential execution of `tally up`, `tally explain` and `tally discover` through the real CLI in forked processes, with twin budgets as oracle for description probes",
+            "Every budget over feature subsets (<=1 feature quick, all 64 subsets thorough) of {tag-only rule first, top-level variable, let+field, not contains(), weekday, \"X\" in "
+            "description} x 2 rule modes x transform on/off x supplemental source on/off, plus legacy-CSV budgets: for every merchant `up` reports, `explain <merchant>` must give the same "
+            "category / subcategory / tags / pattern; for 8 (description, amount) probes `explain <description> --amount` must equal what `up` assigns to that row in a twin budget "
+            "containing it; `discover --format json` must list exactly the raw descriptions `up` leaves Unknown with equal counts and totals.",
+            "probes are independent of date / source / custom fields; each comparison is between real CLI runs in fresh processes",
+            "DESIGN.md 4/C16"),
+})
+
 NOT_YET = {}
 
 PROPS = [json.loads(l)["id"] for l in open(os.path.join(ROOT, "properties.jsonl"))]
